@@ -156,14 +156,9 @@ void h_buffer_push_##name(void) { \
   if (g_order == 0) REACH("buffer/push-" #name " returns, little endian"); \
   if (g_order == 2) REACH("buffer/push-" #name " returns, native order"); \
 }
-#ifdef LIB_F32_ANY_DOUBLE
+/* (float) x for a finite double beyond the float range: C99 6.3.1.5 leaves it undefined, Annex F / IEEE 754 (assumed by
+ * CBMC's float model and by every supported platform) rounds to an infinity; all doubles are in the domain */
 #define F32_DOMAIN
-#else
-/* domain restriction: a finite double beyond the float range makes the conversion (float) x overflow - undefined by
- * C99 6.3.1.5 (Annex F / IEEE 754 implementations yield an infinity). Unit lib.buffer.push_float32.anydouble keeps it. */
-#define F32_DOMAIN __CPROVER_requires(argc < 3 || !IS_NUM(argv[2]) || __CPROVER_isnand(janet_unwrap_number(argv[2])) || __CPROVER_isinfd(janet_unwrap_number(argv[2])) || \
-  (janet_unwrap_number(argv[2]) <= 3.4028234663852886e38 && janet_unwrap_number(argv[2]) >= -3.4028234663852886e38))
-#endif
 PUSH_SCALAR(uint16, 2, argv[2].u64 & 0xFFFFull, )
 PUSH_SCALAR(uint32, 4, argv[2].u64 & 0xFFFFFFFFull, )
 PUSH_SCALAR(uint64, 8, argv[2].u64, )
